@@ -168,6 +168,16 @@ CLAIMED = {
         "DESIGN.md §4 C19",
         "exploration",
     ),
+    "C18": (
+        "fault enumeration: Hypothesis-generated histories x exit modes x SIGKILL at every engine-call boundary (forked processes, DuckDB connection proxy) vs committed-prefix states read by a fresh verifier process",
+        "Generated statement histories run under patch(db_path) in a forked process; a proxy around the DuckDB connection counts engine "
+        "calls and kills the process before/after the N-th one; clean and exception exits are included. A reference run gives the "
+        "committed state after every statement and a fresh verifier process (reconnect options varied) must find exactly an allowed "
+        "state and must itself start. In-memory isolation and absence of files are checked in a forked process with an empty cwd.",
+        "Crash points are engine-call boundaries; kills inside a single DuckDB call are not enumerated. Committed state = what a fresh engine cursor of the reference run sees.",
+        "DESIGN.md §4 C18",
+        "fault_enumeration",
+    ),
 }
 
 NOT_YET = {}
